@@ -66,6 +66,19 @@ def openBand (ct : Bytes) : Bool :=
   mt.length > grpcWebBase.length && equalFold (mt.take grpcWebBase.length) grpcWebBase &&
     (mt.drop grpcWebBase.length).head? != some 43
 
+/-- classification of a Content-Type value from the property text: the media type is what precedes the first `;`
+    (trimmed, ASCII case-insensitive); `must` = it is application/grpc-web or application/grpc-web+…,
+    `mustnot` = it does not begin with application/grpc-web, `open` = in between (…-text, …x). -/
+def ctClass (cts : List Bytes) : String :=
+  match cts with
+  | [] => "noct"
+  | ct :: _ =>
+    let mt := trimOWS (cutSemi ct)
+    if !(mt.length ≥ grpcWebBase.length && equalFold (mt.take grpcWebBase.length) grpcWebBase) then "mustnot"
+    else if mt.length == grpcWebBase.length || (mt.drop grpcWebBase.length).head? == some 43 then
+      (if ct.length == mt.length then "must" else "must+tail")
+    else "open"
+
 def handle : Handler
   | ["disp", _m, _rq, _lines], outs =>
     if outs.head? == some "rejected" then "OK b=disp-rejected-by-net/http" else
@@ -96,8 +109,8 @@ def handle : Handler
              | some rqm =>
                if m == .ws && rqm.any (fun e => isMetaKey defaultParam e.1) then "VIOL metadata entries left in the parameters bound to the message"
                else if canonMD rqm != canonMD eq && sortMD rqm != sortMD eq then s!"DIFF model=rq:{showMD eq}"
-               else s!"OK nt b=disp-{ms}-{st}")
-          | none => if rq != "-" then s!"DIFF model=rq:-" else s!"OK nt b=disp-{ms}-{st}"
+               else s!"OK nt b=disp-{ms}-{st}-ct:{ctClass hd.contentType}")
+          | none => if rq != "-" then s!"DIFF model=rq:-" else s!"OK nt b=disp-{ms}-{st}-ct:{ctClass hd.contentType}"
       | _, _ => "BAD disp md"
     | _, _, _, _, _, _ => "BAD disp fields"
   | ["mdq", ph, _rq], outs =>
